@@ -19,6 +19,7 @@ Section sk_induction.
   Hypothesis Hscope : forall a sid cde ks, Forall P ks -> P (KScope a sid cde ks).
   Hypothesis Hwith : forall sid o b, P o -> P b -> P (KWith sid o b).
   Hypothesis Hfun : forall fs cde pn ps b, Forall P ps -> Forall P b -> P (KFun fs cde pn ps b).
+  Hypothesis Hnamed : forall nsid cde k, P k -> P (KNamed nsid cde k).
   Hypothesis Hclass : forall nsid ks, Forall P ks -> P (KClass nsid ks).
   Hypothesis Hswap : forall sid ks, Forall P ks -> P (KSwap sid ks).
 
@@ -35,6 +36,7 @@ Section sk_induction.
     | KScope a sid cde ks => Hscope a sid cde ks (all ks)
     | KWith sid o b => Hwith sid o b (sk_ind' o) (sk_ind' b)
     | KFun fs cde pn ps b => Hfun fs cde pn ps b (all ps) (all b)
+    | KNamed nsid cde k => Hnamed nsid cde k (sk_ind' k)
     | KClass nsid ks => Hclass nsid ks (all ks)
     | KSwap sid ks => Hswap sid ks (all ks)
     end.
@@ -85,6 +87,10 @@ Lemma an_fun : forall fs cde pn ps b cur de w T,
        (an_list ps (parameter_scope fs) (cde || de) w
           (if cde || de then escape_all_fs T fs else T))).
 Proof. intros. simpl. rewrite !go_eq. reflexivity. Qed.
+
+Lemma an_named : forall nsid cde k cur de w T,
+  an (KNamed nsid cde k) cur de w T = an k cur de w (if de || cde then escape_all T nsid else T).
+Proof. reflexivity. Qed.
 
 Lemma an_class : forall nsid ks cur de w T,
   an (KClass nsid ks) cur de w T =
@@ -215,6 +221,8 @@ Proof.
   - rewrite an_fun. eapply tle_trans; [|apply fun_tail_tle].
     eapply tle_trans; [|apply an_list_tle_of; auto]. eapply tle_trans; [|apply an_list_tle_of; auto].
     destruct (cde || de); [apply escape_all_fs_tle | apply tle_refl].
+  - rewrite an_named. eapply tle_trans; [|apply IHk].
+    destruct (de || cde); [apply escape_all_tle | apply tle_refl].
   - rewrite an_class. eapply tle_trans; [|apply an_list_tle_of; auto].
     destruct nsid; [apply escape_all_tle | apply tle_refl].
   - rewrite an_swap. apply an_list_tle_of; auto.
@@ -373,6 +381,9 @@ Proof.
     + eapply escapes_mono; [apply an_list_tle|]. eapply occ_sound_list; eauto. rewrite (resolve_after T); auto.
     + eapply occ_sound_list; eauto. rewrite (resolve_after T); auto.
       eapply tle_trans; [apply Ht | apply an_list_tle].
+  - (* KNamed *)
+    rewrite an_named. simpl in Hin. eapply IHk; eauto.
+    rewrite (resolve_after T); auto. destruct (de || cde); [apply escape_all_tle | apply tle_refl].
   - (* KClass *)
     rewrite an_class. simpl in Hin. eapply occ_sound_list; eauto.
     rewrite (resolve_after T); auto. destruct nsid; [apply escape_all_tle | apply tle_refl].
@@ -444,6 +455,10 @@ Proof.
     + apply in_app_or in Hin. destruct Hin as [Hin|Hin].
       * eapply all_esc_mono; [apply an_list_tle|]. eapply ev_sound_list; eauto.
       * eapply ev_sound_list; eauto.
+  - rewrite an_named. simpl in *. apply andb_true_iff in Hh. destruct Hh as [Hh1 Hh2].
+    apply in_app_or in Hin. destruct Hin as [Hin|Hin]; [|apply IHk; auto].
+    destruct (has_eval k); [|contradiction]. simpl in Hh1. subst cde. destruct Hin as [->|[]].
+    eapply all_esc_mono; [apply an_tle|]. rewrite orb_true_r. apply all_esc_escape_all.
   - rewrite an_class. simpl in *. apply in_app_or in Hin. destruct Hin as [Hin|Hin]; [|eapply ev_sound_list; eauto].
     destruct (existsb has_eval ks); [|contradiction].
     destruct nsid as [s0|]; simpl in Hin; [|contradiction]. destruct Hin as [->|[]].
@@ -539,4 +554,180 @@ Proof.
   - intros Hc. destruct (H1 Hc) as (f & Hfs & Hlt). rewrite Hfs. intros Heq. symmetry in Heq.
     apply (fun_of_le T Hw) in Heq. lia.
   - intros Hne. destruct c; [reflexivity|]. exfalso. apply Hne. apply H2. reflexivity.
+Qed.
+
+(* ---------------------------------------------------------------------------------------------- *)
+(* the collector of the code that exists now (old = false) emits truthful contains_direct_eval flags:
+   has_eval of the emitted skeleton = contains(.., DirectEval) of the node, for every node *)
+
+Section node_induction.
+  Variable P : node -> Prop.
+  Hypothesis H_id : forall x, P (NId x).
+  Hypothesis H_this : P NThis.
+  Hypothesis H_op : forall ks, Forall P ks -> P (NOp ks).
+  Hypothesis H_call : forall f args, P f -> Forall P args -> P (NCall f args).
+  Hypothesis H_fun : forall nm st ps b, Forall P ps -> Forall P b -> P (NFun nm st ps b).
+  Hypothesis H_arrow : forall st ps b, Forall P ps -> Forall P b -> P (NArrow st ps b).
+  Hypothesis H_method : forall st key ps b, Forall P key -> Forall P ps -> Forall P b -> P (NMethod st key ps b).
+  Hypothesis H_class : forall nm h c es, Forall P h -> Forall P c -> Forall P es -> P (NClass nm h c es).
+  Hypothesis H_cmethod : forall ps b, Forall P ps -> Forall P b -> P (NCMethod ps b).
+  Hypothesis H_field : forall key init, Forall P key -> Forall P init -> P (NField key init).
+  Hypothesis H_static : forall b, Forall P b -> P (NStaticBlock b).
+  Hypothesis H_pat : forall s bd inits, Forall P inits -> P (NPat s bd inits).
+  Hypothesis H_param : forall p init r, P p -> Forall P init -> P (NParam p init r).
+  Hypothesis H_var : forall ds, Forall P ds -> P (NVar ds).
+  Hypothesis H_lex : forall c ds, Forall P ds -> P (NLex c ds).
+  Hypothesis H_declr : forall p init, P p -> Forall P init -> P (NDeclr p init).
+  Hypothesis H_fundecl : forall nm st ps b, Forall P ps -> Forall P b -> P (NFunDecl nm st ps b).
+  Hypothesis H_classdecl : forall nm h c es, Forall P h -> Forall P c -> Forall P es -> P (NClassDecl nm h c es).
+  Hypothesis H_block : forall ks, Forall P ks -> P (NBlock ks).
+  Hypothesis H_ctl : forall es ss, Forall P es -> Forall P ss -> P (NCtl es ss).
+  Hypothesis H_for : forall i c u b, Forall P i -> Forall P c -> Forall P u -> P b -> P (NFor i c u b).
+  Hypothesis H_forin : forall h e b, P h -> P e -> P b -> P (NForIn h e b).
+  Hypothesis H_switch : forall d cs, P d -> Forall P cs -> P (NSwitch d cs).
+  Hypothesis H_case : forall t b, Forall P t -> Forall P b -> P (NCase t b).
+  Hypothesis H_catch : forall p b, Forall P p -> Forall P b -> P (NCatch p b).
+  Hypothesis H_with : forall o b, P o -> P b -> P (NWith o b).
+
+  Fixpoint node_ind' (n : node) : P n :=
+    let all := fix all (l : list node) : Forall P l :=
+      match l with [] => Forall_nil P | a :: r => Forall_cons a (node_ind' a) (all r) end in
+    match n with
+    | NId x => H_id x
+    | NThis => H_this
+    | NOp ks => H_op ks (all ks)
+    | NCall f args => H_call f args (node_ind' f) (all args)
+    | NFun nm st ps b => H_fun nm st ps b (all ps) (all b)
+    | NArrow st ps b => H_arrow st ps b (all ps) (all b)
+    | NMethod st key ps b => H_method st key ps b (all key) (all ps) (all b)
+    | NClass nm h c es => H_class nm h c es (all h) (all c) (all es)
+    | NCMethod ps b => H_cmethod ps b (all ps) (all b)
+    | NField key init => H_field key init (all key) (all init)
+    | NStaticBlock b => H_static b (all b)
+    | NPat s bd inits => H_pat s bd inits (all inits)
+    | NParam p init r => H_param p init r (node_ind' p) (all init)
+    | NVar ds => H_var ds (all ds)
+    | NLex c ds => H_lex c ds (all ds)
+    | NDeclr p init => H_declr p init (node_ind' p) (all init)
+    | NFunDecl nm st ps b => H_fundecl nm st ps b (all ps) (all b)
+    | NClassDecl nm h c es => H_classdecl nm h c es (all h) (all c) (all es)
+    | NBlock ks => H_block ks (all ks)
+    | NCtl es ss => H_ctl es ss (all es) (all ss)
+    | NFor i c u b => H_for i c u b (all i) (all c) (all u) (node_ind' b)
+    | NForIn h e b => H_forin h e b (node_ind' h) (node_ind' e) (node_ind' b)
+    | NSwitch d cs => H_switch d cs (node_ind' d) (all cs)
+    | NCase t b => H_case t b (all t) (all b)
+    | NCatch p b => H_catch p b (all p) (all b)
+    | NWith o b => H_with o b (node_ind' o) (node_ind' b)
+    end.
+End node_induction.
+
+Fixpoint col_list_g (old : bool) (l : list node) (cur : nat) (strict : bool) (T : table) {struct l} : list sk * table :=
+  match l with
+  | [] => ([], T)
+  | a :: r => let '(ka, T1) := colg old a cur strict T in
+              let '(kr, T2) := col_list_g old r cur strict T1 in (ka :: kr, T2)
+  end.
+
+Lemma colg_go_eq : forall old l cur strict T,
+  (fix go (l : list node) (cur : nat) (strict : bool) (T : table) {struct l} : list sk * table :=
+      match l with
+      | [] => ([], T)
+      | a :: r => let '(ka, T1) := colg old a cur strict T in
+                  let '(kr, T2) := go r cur strict T1 in (ka :: kr, T2)
+      end) l cur strict T = col_list_g old l cur strict T.
+Proof. intros old l. induction l as [|a r IH]; intros; simpl; auto. destruct (colg old a cur strict T). rewrite IH. reflexivity. Qed.
+
+
+Definition flags_ok (n : node) : Prop :=
+  forall cur strict T, has_eval (fst (colg false n cur strict T)) = ceg false n /\ honest (fst (colg false n cur strict T)) = true.
+
+Lemma col_list_flags : forall l, Forall flags_ok l -> forall cur strict T,
+  existsb has_eval (fst (col_list_g false l cur strict T)) = existsb (ceg false) l /\
+  forallb honest (fst (col_list_g false l cur strict T)) = true.
+Proof.
+  intros l H; induction H as [|a r Ha _ IH]; intros cur strict T; simpl; auto.
+  destruct (Ha cur strict T) as [A B]. destruct (colg false a cur strict T) as [ka T1]. simpl in A, B.
+  destruct (IH cur strict T1) as [C D]. destruct (col_list_g false r cur strict T1) as [kr T2]. simpl in *.
+  rewrite A, B, C, D. auto.
+Qed.
+
+Lemma existsb_map_KId : forall l, existsb has_eval (map KId l) = false.
+Proof. induction l; simpl; auto. Qed.
+Lemma forallb_map_KId : forall l, forallb honest (map KId l) = true.
+Proof. induction l; simpl; auto. Qed.
+
+Ltac use_list E l c s t :=
+  match goal with
+  | H : Forall _ l |- _ =>
+      let A := fresh "A" in let B := fresh "B" in
+      destruct (col_list_flags l H c s t) as [A B]; rewrite E in A, B; simpl fst in A, B
+  end.
+Ltac use_node E n c s t :=
+  match goal with
+  | H : flags_ok n |- _ =>
+      let A := fresh "A" in let B := fresh "B" in
+      destruct (H c s t) as [A B]; rewrite E in A, B; simpl fst in A, B
+  end.
+Ltac step :=
+  rewrite ?colg_go_eq;
+  match goal with
+  | |- context [match col_list_g false ?l ?c ?s ?t with (_, _) => _ end] =>
+      let E := fresh "E" in destruct (col_list_g false l c s t) as [? ?] eqn:E; use_list E l c s t
+  | |- context [match colg false ?n ?c ?s ?t with (_, _) => _ end] =>
+      let E := fresh "E" in destruct (colg false n c s t) as [? ?] eqn:E; use_node E n c s t
+  | |- context [match fdi ?a ?b ?c ?d ?e ?f with (_, _) => _ end] => destruct (fdi a b c d e f) as [? ?]
+  | |- context [match block_decl_inst ?a ?b ?c with (_, _) => _ end] => destruct (block_decl_inst a b c) as [? ?]
+  end.
+Ltac step2 :=
+  step ||
+  match goal with
+  | |- context [match ?X with (_, _) => _ end] => destruct X as [? ?]
+  end.
+Ltac fin2 :=
+  simpl; rewrite ?existsb_app, ?forallb_app, ?existsb_map_KId, ?forallb_map_KId; simpl;
+  repeat match goal with H : _ = _ |- _ => rewrite H; clear H end;
+  repeat match goal with
+         | |- context [if ?c then Some _ else None] => destruct c
+         | |- context [match ?o with Some _ => _ | None => _ end] => is_var o; destruct o
+         end;
+  simpl; rewrite ?orb_false_r, ?andb_true_r, ?orb_false_l;
+  repeat match goal with
+         | |- context [existsb (ceg false) ?x] => destruct (existsb (ceg false) x)
+         | |- context [ceg false ?x] => destruct (ceg false x)
+         end; simpl; auto.
+Ltac fin :=
+  simpl; rewrite ?existsb_app, ?forallb_app, ?existsb_map_KId, ?forallb_map_KId; simpl;
+  repeat match goal with H : _ = _ |- _ => rewrite H; clear H end;
+  rewrite ?orb_false_r, ?andb_true_r, ?orb_false_l;
+  repeat match goal with
+         | |- context [existsb (ceg false) ?x] => destruct (existsb (ceg false) x)
+         | |- context [ceg false ?x] => destruct (ceg false x)
+         end; simpl; auto.
+
+Lemma colg_flags : forall n, flags_ok n.
+Proof.
+  induction n using node_ind'; unfold flags_ok; intros cur strict T;
+    try solve [simpl; auto];
+    try solve [simpl; repeat step; fin];
+    try solve [simpl; destruct nm; repeat step; fin];
+    try solve [simpl; destruct (is_direct_eval n); repeat step; fin];
+    try solve [simpl; repeat step2; fin2].
+Qed.
+
+Lemma col_stmts_honest : forall l cur strict acc T,
+  forallb honest acc = true ->
+  forallb honest (fst (fold_left (fun '(ks, T) a => let '(k, T1) := colg false a cur strict T in (ks ++ [k], T1)) l (acc, T))) = true.
+Proof.
+  induction l as [|a r IH]; intros cur strict acc T Hacc; simpl; auto.
+  destruct (colg_flags a cur strict T) as [_ Hh]. destruct (colg false a cur strict T) as [k T1]. simpl in Hh.
+  apply IH. rewrite forallb_app, Hacc. simpl. rewrite Hh. reflexivity.
+Qed.
+
+(* the repaired collector only emits truthful contains_direct_eval flags *)
+Lemma collect_script_honest : forall strict stmts, honest (fst (collect_script strict stmts)) = true.
+Proof.
+  intros. unfold collect_script, collect_script_g, col_stmts_g.
+  pose proof (col_stmts_honest stmts O strict [] (global_decl_inst global_table stmts) eq_refl) as H.
+  destruct (fold_left _ stmts ([], global_decl_inst global_table stmts)) as [ks T1]. simpl in *. exact H.
 Qed.
